@@ -70,6 +70,18 @@ Theorem C08_multiple_clears : forall c s a n sz bits s' i g sg,
 Proof. exact multiple_report_clears. Qed.
 Print Assumptions C08_multiple_clears.
 
+(* concurrent readers (partial: a fact about the source's syntax, produced by translator/gen_statetabs.py from the
+   clang AST on every run, not a theorem about an execution model): bidib_state_bm_occ / bm_multiple / bm_address
+   acquire {trains rwlock, segments mutex, trains mutex} once each as top-level statements, release them once, have
+   no return or goto in between, and call bidib_state_update_train_available inside that region; the getters
+   bidib_get_train_position (all three locks), bidib_get_train_state, bidib_get_train_on_track (trains mutex) and
+   bidib_get_segment_state (segments mutex) read inside one such hold. Together with C10/C11 (guards held at every
+   access, no deadlock) a concurrent reader therefore sees the segment table and the derived train data of one
+   prefix state: the states between "address list changed" and "train data updated" are never visible. *)
+Theorem C08_atomic_view_partial : forallb (fun b => b) single_hold_facts = true /\ length single_hold_facts = 7%nat.
+Proof. exact single_hold_all. Qed.
+Print Assumptions C08_atomic_view_partial.
+
 (* ---- a concrete, non-trivial instance: two boards, three segments, two trains; train 0 spans two
    segments with different orientations, train 1 shares a segment with it; then one segment is freed *)
 Definition ex_board (uid : list N) (segs : list (N * nat)) : board_cfg :=
